@@ -16,7 +16,11 @@ def depOfJson (j : Json) : Except String Dep := do
   let j' := match j.getObjVal? "j" with
     | .ok (Json.bool b) => b
     | _ => false
-  pure { unsetup := uns, optional := opt, name := ← jstr j "n", ver := ← jstrOpt j "v", noRec := j' }
+  let flag (k : String) : Bool := match j.getObjVal? k with
+    | .ok (Json.bool b) => b
+    | _ => false
+  pure { unsetup := uns, optional := opt, name := ← jstr j "n", ver := ← jstrOpt j "v", noRec := j',
+         external := flag "external" }
 
 def dbOfJson (g : Json) : Except String Db := do
   let ps ← jarr g "products"
